@@ -72,3 +72,75 @@ PROPS["C11"] = rt_prop(
     "Accept headers rendered from 0-6 structured ranges (registered/other types, type/*, */*, q in thousandths, parameters, OWS, case, several header "
     "lines, unparsable entries) x ordered subsets of 5 encodings; distinct = (deciding rule, #ranges, registration order, garbage?, params?)",
     ["media types compare case-insensitively; unparsable list entries are ignored (both checked against the real parser by agreement on every case)"])
+
+PROPS["C07"] = rt_prop(
+    "runtime monitoring: independent RFC 3986 splitter/percent-decoder over the URI strings clients hand to the transport + real server-side "
+    "decoders on the raw pieces; exhaustive single ASCII bytes and reserved pairs, random Unicode, long values",
+    "Held on every built URI except the pinned known finding (URIs longer than 65534 bytes panic): segment count, literal segments, query pair "
+    "count/order/keys and decoded values all equal the supplied ones, and the real server decoders return the original values.",
+    "UriBuilder driven by random templates (literals, path parameters, query pairs) with hostile values; every ASCII byte alone in 4 positions and "
+    "all ordered pairs of 33 reserved characters (exhaustive parts); URIs produced by generated and macro clients (blocking/async); distinct = "
+    "(sub-monitor/endpoint, per-position character classes)",
+    ["dot-segment values ('.', '..') are only checked structurally (no normalising intermediary is modelled)"])
+
+PROPS["C06"] = rt_prop(
+    "runtime monitoring with fault injection: constructively built bodies (valid / trailing data / truncated / corrupted / unknown member / wrong kind / "
+    "at-limit sizes, JSON and Smile) x Content-Type classes x chunkings x injected stream errors, delivered straight to generated and macro endpoints "
+    "(blocking, async with Pending between chunks); handler-event oracle",
+    "Held on every delivery: the handler ran exactly when the reference decision (encoding named by Content-Type, no stream error, within the limit, "
+    "body constructed as exactly one document) says so, with the document's value; rejections were INVALID_ARGUMENT or the injected stream error; no panic. "
+    "All chunkings x error positions of 10 small bodies are enumerated completely.",
+    "random (endpoint, body class, format, content-type class, chunking, error position, flavour) tuples + complete enumeration of chunkings (with "
+    "interleaved empty chunks) x stream-error positions for small bodies; distinct = (endpoint, body class, format, content-type class, chunk-path class, "
+    "error position class, flavour, oversize?)",
+    ["expected handler value is obtained with the client-side deserializer from the generated document (C01/C02 cover that path)",
+     "0xFF after a Smile document is the format's end-of-content marker, not trailing data"],
+    level="fault_enumeration")
+
+PROPS["C12"] = rt_prop(
+    "runtime monitoring: round-trip law from_plain(to_plain(v)) == v plus independent spelling recognisers over bit-pattern / boundary / grammar-driven domains",
+    "Held on every generated value of every PLAIN type; fixed grids make the coverage floors hold at any seed (every f64 exponent, every binary length 0..64, "
+    "both ends and every year boundary of 0000-9999).",
+    "fixed grid + random batches per type; distinct = structural classes (type, exponent/class, length class, fraction class, grammar class)",
+    ["generated enums and aliases are covered by the lab half (Bed B)", "sign of -0.0 and NaN payloads are observed-only"])
+
+PROPS["C13"] = rt_prop(
+    "runtime monitoring: round-trip / JSON-equivalence / coercion-parity oracles over Node trees, a leaf x shape grid of every integer width and random JSON documents",
+    "Held on every value and document after two fix commits (i128/u128, newtype structs): Any -> static type returns the original, json(any) is equivalent to json(v), "
+    "documents re-serialize equivalently, and valid documents view as the static type like direct parsing.",
+    "17 leaf types x 21 shapes (pinned + random), Node trees, random JSON documents with 64-bit integers; distinct = (oracle, leaf, shape) and document classes",
+    ["error parity on invalid documents is not claimed by the property and not judged"])
+
+PROPS["C14"] = rt_prop(
+    "runtime monitoring: algebraic law checker (reflexive/symmetric/antisymmetric/transitive, cmp==Equal<=>eq, eq=>hash eq, NaN greatest, set/map class counts) "
+    "over all triples of colliding value pools",
+    "Held on all triples of every pool for DoubleKey, every DoubleOps implementation and generator-style Educe wrappers; generated types of random definitions "
+    "are covered by the lab half when built.",
+    "36-element pools built to collide (NaN payloads, +-0, infinities, prefix-related lists/maps) for 17 types, all triples; distinct = (type, pair class)",
+    ["+0 == -0 under OrderedFloat is accepted (the property only demands law-consistency)"])
+
+PROPS["C15"] = rt_prop(
+    "runtime monitoring: range invariant (Ok(s) => |s| <= 2^53-1 and s == input; in-range canonical => Ok; out-of-range => Err) asserted on 44 construction / "
+    "deserialization routes over exhaustive boundary neighbourhoods and random bit patterns",
+    "Held on every integer x route; neighbourhoods (+-1024) of 20 anchors and +-2^k+-1 for all k are enumerated completely.",
+    "exhaustive neighbourhoods + powers + random integers + non-canonical spellings, each through 44 routes; distinct = (route, canonical?, sign, range class, bit length)",
+    ["an Any built from an i128 and read as SafeLong is judged only on the range invariant (cross-width view, observed-only for acceptance)"])
+
+PROPS["C16"] = rt_prop(
+    "runtime monitoring: exhaustive bounded enumeration + random mutants through 15 entry paths, compared with hand-written grammar recognisers; rendering and "
+    "component-accessor agreement",
+    "Held on every string: all 406901 token strings of length <= 4 over a 25-character boundary alphabet, all rid component tuples (<= 2 chars each) and 333335 "
+    "frame variants are enumerated completely (exhaustive part), plus random long strings and one-edit mutants.",
+    "exhaustive enumeration of bounded strings + random/mutated strings, each through FromStr/new/from_plain/JSON/Smile/Any paths and from_components; "
+    "distinct = (path, shape class)",
+    ["recognisers in vcore::models are written from the grammar in the property text"])
+
+PROPS["C17"] = rt_prop(
+    "runtime monitoring: model-based oracle (stringify model from the property text) over random dynamic error types x constructors x instance-id modes; "
+    "partition invariant on safe/unsafe parameter sets; exhaustive status table",
+    "Held on every generated error: encode() matches the model, JSON round trip is the identity, each key is in exactly one set (safe iff declared, all unsafe "
+    "when propagated), status codes match the specification table.",
+    "random DynError (22 parameter classes, 64 safe lists, 4 id modes) through encode and 4 constructors; 10 status codes and 8 built-in errors exhaustively; "
+    "distinct = structural classes",
+    ["non-finite double parameters and datetime/token/safelong/any parameters are observed-only beyond equality with their JSON string form",
+     "generated error types of random definitions are covered by the lab half when built"])
